@@ -587,4 +587,38 @@ func main() {
 		}
 		run.Guard("C06/panic", c, func() { runCase(i, c) })
 	}
+	// a long history under a large configured capacity: the in-flight unit of a value survives thousands of other values
+	// as long as their number stays below the capacity the rule asks for
+	for i := n; i < n+run.N(1, 8); i++ {
+		if run.Skip(i) {
+			continue
+		}
+		d := map[string]interface{}{"capacity": 5000, "other_values": 4200 + 50*(i-n)}
+		run.Begin(i, d)
+		run.Guard("C06/panic", d, func() { longHistory(i, 4200+50*(i-n)) })
+	}
+}
+
+func longHistory(idx, others int) {
+	caseNo++
+	res := fmt.Sprintf("c06-long-%d", caseNo)
+	hotspot.LoadRulesOfResource(res, []*hotspot.Rule{{ID: "cap", Resource: res, MetricType: hotspot.Concurrency, ParamIndex: 0, Threshold: 1, ParamsMaxCapacity: 5000}})
+	defer hotspot.ClearRulesOfResource(res)
+	held, b := sentinel.Entry(res, sentinel.WithArgs("kept"))
+	if b != nil {
+		run.Violation("C06/admit-iff:spurious-rejection", "long history: the first request of a value was rejected", map[string]interface{}{"case": idx})
+		return
+	}
+	defer held.Exit()
+	for k := 0; k < others; k++ {
+		if e, b := sentinel.Entry(res, sentinel.WithArgs(fmt.Sprintf("v%d", k))); b == nil {
+			e.Exit()
+		}
+	}
+	if e, b := sentinel.Entry(res, sentinel.WithArgs("kept")); b == nil {
+		e.Exit()
+		run.Violation("C06/admit-iff:over-admission:long-history", fmt.Sprintf("threshold 1, configured parameter capacity 5000: value \"kept\" has one entry in flight; after %d other values (entered and exited) a second entry for it was admitted: its in-flight figure was forgotten below the configured capacity", others), map[string]interface{}{"case": idx, "other_values": others})
+	}
+	run.Count("long_histories", 1)
+	run.Distinct(vk.Hash("long", others))
 }
